@@ -451,6 +451,8 @@ func init() {
 		// the cipher is bound to the key bytes it was created from (ghost function aeadkey)
 		kf := ex.declFun("aeadkey", []string{sInt}, sInt)
 		ex.assume(st.pc, eq(app(kf, ref), c.args[0].L[0]))
+		kfo := ex.declFun("aeadkeyoff", []string{sInt}, bv64)
+		ex.assume(st.pc, eq(app(kfo, ref), c.args[0].L[1]))
 		e := ex.freshErr(st, "keysize")
 		tag := fmt.Sprint(ex.typeTag("T:*chacha20poly1305.chacha20poly1305"))
 		return tup(Val{T: c.results().At(0).Type(), L: []string{ite(okc, tag, "0"), ite(okc, ref, "0")}},
